@@ -201,7 +201,7 @@ def rows_of(out, w):
 
 def run(ctx):
     quick = ctx.tier == "quick"
-    ntrees = 10 if quick else 60
+    ntrees = 10 if quick else 200
     per_tree = 25 if quick else 60
     scratch = common.new_scratch()
     try:
